@@ -10,7 +10,7 @@ import time
 import vlib
 from props import topiclib as T
 
-P, J = 8, 1
+P, J, R = 8, 1, 2
 
 
 class Scn:
@@ -55,7 +55,162 @@ def fixed_cases():
     mk("f_bkg_p2p_fg", 2, {1: 1, 2: 2}, ["att 1 p2 1", "fg 1", "det 1 p2"], "bkg")
     mk("f_unload_race", 2, {1: 1, 2: 2}, ["att 1 me 0", "att 2 me 0", "att 1 p2 0", "det 2 me", "unload1 m2", "att 2 me 0", "unload2 m2",
                                         "unloadall"], "race")
+    # removals while the topic stays loaded (sessions 1,3 = users 1,2 on 'me' only; 2,4 = their topic sessions)
+    mk("f_p2p_removed", 2, {1: 1, 2: 1, 3: 2, 4: 2},
+       ["att 1 me 0", "att 3 me 0", "att 2 p2 0", "att 4 p1 0", "pub 4 p1", "pub 2 p2", "note 2 p2 read 1", "unsub 2 p2",
+        "note 4 p1 kp 0", "note 4 p1 read 2", "note 4 p1 recv 2", "pub 4 p1", "note 2 p2 recv 3", "note 1 p2 recv 3", "delmsg 4 p1 0", "want 4 p1 23", "want 4 p1 31",
+        "det 4 p1", "att 4 p1 0", "note 4 p1 kp 0", "att 2 p2 0", "note 4 p1 kp 0", "unloadall"], "rm")
+    mk("f_grp_removed", 3, {1: 1, 2: 1, 3: 2, 4: 2, 5: 3, 6: 3},
+       ["att 1 me 0", "att 3 me 0", "att 5 me 0", "new 2 1", "given 2 g1 2 47", "given 2 g1 3 47", "att 4 g1 0", "att 6 g1 0",
+        "pub 2 g1", "pub 4 g1", "det 6 g1", "note 4 g1 read 2", "note 4 g1 kp 0", "unsub 4 g1", "note 2 g1 kp 0", "note 2 g1 read 2",
+        "delmsg 2 g1 1", "evict 2 g1 3", "pub 2 g1", "note 2 g1 kp 0", "delmsg 2 g1 0", "given 2 g1 2 47", "note 2 g1 kp 0",
+        "pub 2 g1", "unloadall"], "rm")
+    mk("f_muted_no_r", 3, {1: 1, 2: 1, 3: 2, 4: 2, 5: 3, 6: 3},
+       ["att 1 me 0", "att 3 me 0", "att 5 me 0", "new 2 1", "given 2 g1 2 45", "given 2 g1 3 39", "pub 2 g1", "note 2 g1 kp 0",
+        "delmsg 2 g1 1", "att 4 g1 0", "note 4 g1 kp 0", "note 2 g1 kp 0", "unloadall"], "rm")
+    # findings/C10.md #5 and #6: a deleted p2p subscription re-created by the OTHER party
+    mk("f_p2p_resub_by_partner", 2, {1: 1, 2: 1, 3: 2, 4: 2},
+       ["att 1 me 0", "att 3 me 0", "att 2 p2 0", "unsub 2 p2", "unloadall", "att 4 p1 0", "unloadall"], "rm")
+    mk("f_p2p_reinvite", 2, {1: 1, 2: 1, 3: 2, 4: 2},
+       ["att 1 me 0", "att 3 me 0", "att 2 p2 0", "att 4 p1 0", "unsub 2 p2", "given 4 p1 1 31", "unloadall"], "rm")
     return res
+
+
+def gen_rm(rng, sid):
+    """Removal histories: p2p and group subscriptions deleted (leave unsub / del sub / ban) while the topic stays
+    loaded, then notes, publishes, message deletions, permission changes, attach/detach by the remaining members.
+    User u has session 2u-1 (observer: mostly on 'me' only) and 2u (worker: attaches to the topics)."""
+    sc = Scn(sid)
+    sc.profile = "rm"
+    n = rng.choice([2, 3, 3, 4])
+    sc.nusers = n
+    users = list(range(1, n + 1))
+    for u in users:
+        sc.sessions[2 * u - 1] = u
+        sc.sessions[2 * u] = u
+    ops = []
+    for u in users:
+        if rng.random() < 0.85:
+            ops.append(("att", [2 * u - 1, "me", 0]))
+    kind = rng.choice(["p2p", "p2p", "grp", "grp", "both", "both"])
+    pubs = {}        # topic key -> messages published so far (upper bound of lastID)
+    refs = {}        # user -> topic refs the user takes part in
+    owner = None
+    unsubbed = set()  # p2p pairs one side of which asked to unsubscribe: no {set sub user} there afterwards (findings/C10.md #5)
+
+    def key(u, ref):
+        return ref if ref[0] == "g" else "p%d.%d" % (min(u, int(ref[1:])), max(u, int(ref[1:])))
+    if kind in ("p2p", "both"):
+        for _ in range(rng.choice([1, 1, 2])):
+            a, b = rng.sample(users, 2)
+            ops.append(("att", [2 * a, "p%d" % b, 0]))
+            refs.setdefault(a, set()).add("p%d" % b)
+            refs.setdefault(b, set()).add("p%d" % a)
+            if rng.random() < 0.8:
+                ops.append(("att", [2 * b, "p%d" % a, 0]))
+            r = rng.random()
+            if r < 0.15:
+                ops.append(("want", [2 * b, "p%d" % a, rng.choice([23, 29])]))
+    if kind in ("grp", "both"):
+        owner = rng.choice(users)
+        ops.append(("new", [2 * owner, 1, 0]))
+        refs.setdefault(owner, set()).add("g1")
+        for v in users:
+            if v != owner and rng.random() < 0.85:
+                ops.append(("given", [2 * owner, "g1", v, rng.choice([47, 47, 47, 47, 39, 45, 111])]))
+                refs.setdefault(v, set()).add("g1")
+                if rng.random() < 0.7:
+                    ops.append(("att", [2 * v, "g1", 0]))
+
+    def someref(u):
+        c = sorted(refs.get(u, ()))
+        return rng.choice(c) if c else None
+
+    def do_pub():
+        u = rng.choice(users)
+        ref = someref(u)
+        if ref:
+            ops.append(("pub", [2 * u, ref]))
+            pubs[key(u, ref)] = pubs.get(key(u, ref), 0) + 1
+    for _ in range(rng.randint(1, 3)):
+        do_pub()
+
+    def removal():
+        u = rng.choice(users)
+        ref = someref(u)
+        if not ref:
+            return
+        gone = None      # (user, the user's name for the topic) just removed or banned
+        if ref[0] == "p":
+            v = int(ref[1:])
+            if rng.random() < 0.75:
+                ops.append(("unsub", [rng.choice([2 * u, 2 * u, 2 * u - 1]), ref]))
+                unsubbed.add(key(u, ref))
+                gone = (u, ref)
+            elif key(u, ref) not in unsubbed:
+                ops.append(("given", [2 * u, ref, v, rng.choice([30, 22, 0])]))      # ban / ban+mute the partner
+                gone = (v, "p%d" % u)
+        else:
+            r = rng.random()
+            v = rng.choice(users)
+            if r < 0.4 and u != owner:
+                ops.append(("unsub", [2 * u, "g1"]))
+                gone = (u, "g1")
+            elif r < 0.75 and v != owner:
+                ops.append(("evict", [2 * owner, "g1", v]))
+                gone = (v, "g1")
+            elif v != owner:
+                ops.append(("given", [2 * owner, "g1", v, rng.choice([46, 14, 0, 6])]))
+                gone = (v, "g1")
+        if gone and rng.random() < 0.5:
+            # the removed user's (now detached) session acknowledges receipt: routed by the hub to the loaded topic
+            w, gref = gone
+            top = pubs.get(key(w, gref), 0)
+            ops.append(("note", [rng.choice([2 * w, 2 * w - 1]), gref, "recv", rng.choice([top, top, max(1, top - 1), top + 1])]))
+    nrem = 0
+    for i in range(rng.randint(10, 24)):
+        r = rng.random()
+        u = rng.choice(users)
+        ref = someref(u)
+        if (r < 0.14 or (i == 1 and nrem == 0)):
+            removal()
+            nrem += 1
+        elif ref is None:
+            continue
+        elif r < 0.44:
+            top = pubs.get(key(u, ref), 0)
+            what = rng.choice(["kp", "kp", "read", "read", "recv"])
+            seq = 0 if what == "kp" else rng.choice([top, top, max(1, top - 1), top + 1, 1])
+            ops.append(("note", [rng.choice([2 * u, 2 * u, 2 * u, 2 * u - 1]), ref, what, seq]))
+        elif r < 0.54:
+            do_pub()
+        elif r < 0.62:
+            ops.append(("delmsg", [2 * u, ref, rng.choice([0, 1])]))
+        elif r < 0.72:
+            if ref[0] == "p":
+                ops.append(("want", [2 * u, ref, rng.choice([23, 31, 31, 29, 19])]))
+            elif u == owner:
+                ops.append(("want", [2 * u, ref, rng.choice([255, 247, 253])]))
+            else:
+                ops.append(("want", [2 * u, ref, rng.choice([47, 39, 45, 35, 47])]))
+        elif r < 0.78 and ref[0] == "g" and owner is not None:
+            v = rng.choice(users)
+            if v != owner:
+                ops.append(("given", [2 * owner, "g1", v, rng.choice([47, 47, 39, 45, 111, 63])]))
+                refs.setdefault(v, set()).add("g1")
+        elif r < 0.88:
+            sx = rng.choice([2 * u, 2 * u, 2 * u - 1])
+            ops.append(("att", [sx, rng.choice([ref, ref, "me"]), 0]))
+        elif r < 0.95:
+            sx = rng.choice([2 * u, 2 * u, 2 * u - 1])
+            ops.append(("det", [sx, rng.choice([ref, ref, "me"])]))
+        elif r < 0.97:
+            ops.append(("disc", [rng.choice([2 * u, 2 * u - 1])]))
+        else:
+            ops.append(("unloadall", []))
+    ops.append(("unloadall", []))
+    sc.ops = ops
+    return sc
 
 
 def gen_scn(rng, sid, profile):
@@ -178,7 +333,7 @@ def parse_blocks(lines):
             cur = []
             res[w[1]] = cur
         elif w[0] == "op":
-            op = {"frames": [], "ctrl": [], "state": [], "hang": None, "skipped": False}
+            op = {"frames": [], "ctrl": [], "state": [], "hang": None, "skipped": False, "unmodelled": False}
             cur.append(op)
         elif w[0] == "end":
             cur = None
@@ -194,6 +349,8 @@ def parse_blocks(lines):
             op["hang"] = ln
         elif w[0] == "skipped":
             op["skipped"] = True
+        elif w[0] == "unmodelled":
+            op["unmodelled"] = True
     return res
 
 
@@ -266,11 +423,17 @@ def monitor(sc, views):
     """C10 evaluated on the implementation's trace.  -> [(law, op index, detail)]"""
     res = []
     had_bkg = set()
+    recreated = set()   # p2p topics in which a deleted subscription was re-created by the OTHER party's request
     prev = None
     for k, v in enumerate(views):
         kind, args = sc.ops[k]
         if kind in ("att", "new") and len(args) > 2 and str(args[2]) == "1":
             had_bkg.add(sc.sessions[int(args[0])])
+        if kind in ("att", "given") and prev is not None:
+            actor = sc.sessions[int(args[0])]
+            for (tk, u), r in v.rows.items():
+                if tk[0] == "p" and u != actor and not r["deleted"] and prev.rows.get((tk, u), {}).get("deleted"):
+                    recreated.add(tk)
         # ---- online count = attached foreground sessions, never negative
         for tk, t in v.topics.items():
             if tk[0] == "m":
@@ -282,27 +445,37 @@ def monitor(sc, views):
                 if online != fgc or online < 0:
                     law = "online-count-background-session" if u in had_bkg else "online-count"
                     res.append((law, k, "topic %s user %d: online=%d, attached foreground sessions=%d" % (tk, u, online, fgc)))
-        # ---- no leak: every {pres} other than acs/gone reaches only non-deleted subscribers with P
+        # ---- no leak: every {pres} other than acs/gone reaches only non-deleted subscribers with P; an {info}
+        #      (what = i:read|i:recv|i:kp) on 'me' only non-deleted subscribers with P and R, inside the topic only
+        #      attached sessions of non-deleted subscribers with R.  The subscription is the STORED row of the topic
+        #      behind the frame's source, before or after the operation (removed = row deleted or absent).
         for sid, top, src, what in v.frames:
             u = sc.sessions[int(sid)]
             if what in ("acs", "gone"):
                 continue
+            info = what.startswith("i:")
             if top == "me":
                 if src[0] not in "ug":
                     continue
                 tk = rel_topic(u, src)
-            elif top[0] == "u":
-                tk = rel_topic(u, top)
+                need = (P | R) if info else P
             else:
-                tk = top
+                tk = rel_topic(u, top) if top[0] == "u" else top
+                need = R if info else P
+            kindname = "{info %s" % what[2:] if info else "{pres %s" % what
             modes = [x.eff(tk, u) for x in (prev, v) if x is not None]
             givens = [x.rows.get((tk, u), {}).get("given") for x in (prev, v) if x is not None and x.eff(tk, u) is not None]
-            if not any(m is not None and m & P for m in modes):
-                res.append(("no-leak", k, "session %s of user %d got {pres %s src=%s} on %s; effective mode in %s before/after: %s"
-                            % (sid, u, what, src, top, tk, modes)))
+            if all(m is None for m in modes):
+                res.append(("no-leak-removed-user" if info else "no-leak", k,
+                            "session %s of user %d got %s src=%s} on %s but the user has no (non-deleted) subscription to %s "
+                            "before or after this operation" % (sid, u, kindname, src, top, tk)))
+            elif not any(m is not None and (m & need) == need for m in modes):
+                res.append(("no-leak-info" if info else "no-leak", k,
+                            "session %s of user %d got %s src=%s} on %s; effective mode in %s before/after: %s, needed bits %d"
+                            % (sid, u, kindname, src, top, tk, modes, need)))
             elif givens and all(g is not None and not g & J for g in givens):
-                res.append(("pres-to-banned-user", k, "session %s of user %d got {pres %s src=%s} on %s while banned in %s (given=%s has no J)"
-                            % (sid, u, what, src, top, tk, givens)))
+                res.append(("pres-to-banned-user", k, "session %s of user %d got %s src=%s} on %s while banned in %s (given=%s has no J)"
+                            % (sid, u, kindname, src, top, tk, givens)))
         # ---- convergence, evaluated when every idle topic has just been unloaded
         if kind == "unloadall" and not any(t["sess"] == [] for t in v.topics.values()):
             race = any(o[0] in ("unload1", "unload2") for o in sc.ops[:k + 1])
@@ -329,6 +502,8 @@ def monitor(sc, views):
                         law = "converges-unload-race"
                     elif had_bkg:   # any background session so far (e.g. a group whose only attached session is background)
                         law = "converges-background-session"
+                    elif tk[0] == "p" and tk in recreated:
+                        law = "converges-p2p-resubscribed-by-partner"
                     elif tk[0] == "p" and en is False:
                         law = "converges-p2p-contact-left-disabled"
                     else:
@@ -352,10 +527,15 @@ def diff_op(i, m):
     return d
 
 
-RULE = ("fixed handshake/finding histories first, then seeded random multi-user histories: 2-4 users, 1-2 sessions each, "
+RULE = ("fixed handshake/finding/removal histories first, then seeded random multi-user histories: 2-4 users, 1-2 sessions each, "
         "'me' + p2p + 0-2 group topics; ops att/det/disc (foreground; a share with background sessions, field set by the driver), "
         "fg, mute/unmute ({set sub mode} by the user or the admin), invite/ban/evict/unsubscribe, pub, idle unload of any topic "
-        "(the topic's own kill timer fired), a share with the two halves of handleTopicTimeout separated; 10-35 ops; after each op: "
+        "(the topic's own kill timer fired), a share with the two halves of handleTopicTimeout separated; 10-35 ops; profile rm "
+        "(removals): per user one observer session on 'me' and one worker session, p2p pairs and a group with members of assorted "
+        "modes (muted, P without R, D), some messages, then p2p/group subscriptions deleted ({leave unsub}, {del sub}, ban by "
+        "{set sub user mode} without J) while the topic stays loaded, followed by {note kp|read|recv} with sequence numbers around "
+        "lastID, publishes, hard/soft message deletions, mute/un-mute, re-invitations, re-subscription of the removed user, "
+        "attach/detach/disconnect of the remaining members; after each op: "
         "sound quiescence, then pres frames per session, perSubs tables, perUser.online, attached sessions, stored rows; "
         "non-trivial = at least one {pres} frame delivered; distinct by (ops, frames)")
 
@@ -387,6 +567,8 @@ def run(ctx):
         for prof, share in (("fg", 0.7), ("bkg", 0.15), ("race", 0.15)):
             for i in range(int(total * share)):
                 scns.append(gen_scn(ctx.rng, "%s%d" % (prof, i), prof))
+        for i in range(200 if quick else 4000):
+            scns.append(gen_rm(ctx.rng, "rm%d" % i))
     t0 = time.time()
     rc, impl, log = run_impl(ctx, scns)
     t_impl = time.time() - t0
@@ -425,12 +607,18 @@ def run(ctx):
         ctx.violation("monitor", law, "law %s fails on the implementation's trace (%d cases this run): %s" % (law, len(lst), detail),
                       {"head": small.head, "ops": [list(o) for o in small.ops], "law": law, "detail": detail, "cases_failing": len(lst)})
     mism = []
+    unmodelled = 0
     for sc in scns:
         io, mo = impl[sc.id], model.get(sc.id, [])
         if len(io) != len(mo):
             mism.append((sc, -1, [("shape", len(io), len(mo))]))
             continue
         for k in range(len(io)):
+            if mo[k]["unmodelled"]:
+                # the model does not follow this code path (manifest): the comparison of this history stops here;
+                # the laws above were evaluated on the whole implementation trace all the same
+                unmodelled += 1
+                break
             d = diff_op(io[k], mo[k])
             if d:
                 mism.append((sc, k, d))
@@ -470,9 +658,10 @@ def run(ctx):
         "convergence_points_evaluated": conv_points,
         "samples": [{"head": sc.head, "ops": sc.ops, "impl_frames_last_op": impl[sc.id][-1]["frames"] if impl[sc.id] else []} for sc in scns[:2]],
         "traces_validated_against_impl": len(scns), "correspondence_mismatches": len(mism),
+        "histories_compared_up_to_an_unmodelled_request": unmodelled,
         "monitor_failures": {l: len(v) for l, v in fails.items()},
         "input_distribution": {"op_kinds": kinds, "pres_frames_by_what": whats,
-                               "profiles": {p: sum(1 for s in scns if s.profile == p) for p in ("fixed", "fg", "bkg", "race")}},
+                               "profiles": {p: sum(1 for s in scns if s.profile == p) for p in ("fixed", "fg", "bkg", "race", "rm")}},
         "impl_wall_s": round(t_impl, 1),
         "trusted_base": [
             "harness/overlay/server/zz_verif_c10_test.go (+ helpers of zz_verif_topic_test.go): drives the real Hub/Topic/Session code through "
@@ -481,9 +670,11 @@ def run(ctx):
             "this code base sets it for ordinary sessions); unload1/unload2 replay one legal schedule of handleTopicTimeout by hand",
             "harness/overlay/server/db/memverif: in-memory adapter (store contract modelled, not verified)",
             "tools/props/c10.py monitors: python restatement of C10 on the implementation's dumps",
-            "model scope (coq/Sys/Pres.v): users with default access JRWPAS, groups with defacs JRWPS, what in {on, off, ?unkn, ?none, gone, msg}; "
-            "the acs/upd/ua/read/recv/del/tags notifications go through the same filter functions (modelled, theorem c10_no_leak covers every "
-            "`what`) but their emission sites are not modelled; no channels, no cluster/proxy sessions, no 'me' self-mute, no p2p unsubscribe; "
+            "model scope (coq/Sys/Pres.v): users with default access JRWPAS, groups with defacs JRWPS, {pres} what in {on, off, ?unkn, ?none, "
+            "gone, msg, del, read, recv}, {info} what in {read, recv, kp}; the acs/upd/ua/tags notifications go through the same filter "
+            "functions (modelled, theorem c10_no_leak covers every `what`) but their emission sites are not modelled; requests the model "
+            "answers with `unmodelled` (comparison of that history stops there, monitors continue): attach to an unloaded p2p topic with a "
+            "deleted side, {set sub user} re-inviting a deleted p2p party; no channels, no cluster/proxy sessions, no 'me' self-mute; "
             "handlers atomic; LOSSLESS NETWORK: no hub/topic queue overflow (hub.go select-default drops excluded by hypothesis)"],
     })
     ctx.finish(extra_assumptions=["lossless network: no queue of hub.routeSrv / Topic.serverMsg overflows",
